@@ -54,7 +54,7 @@ def sort_case(draw, tier="quick"):
     pay = draw(R.payload(n, 2))
     rev_form = draw(st.sampled_from(["bool", "list", "tuple"]))
     return {"n": n, "keys": keys, "payload": pay, "rev_form": rev_form, "na_last": draw(st.booleans()),
-            "by_form": draw(st.sampled_from(["list", "tuple", "bare"]))}
+            "by_form": draw(st.sampled_from(["list", "tuple", "bare"])), "view_rename": draw(st.integers(0, 3)) == 0}
 
 
 def _build(case):
@@ -138,6 +138,22 @@ def run_table(case, ctx):
     n = case["n"]
     cols, kpos = _build(case)
     t = R.build_table(cols)
+    named = [p for p in kpos if p is not None]
+    all_names = [c[0] for c in cols]
+    if case.get("view_rename") and len(named) >= 1 and len(cols) >= 3 and all(isinstance(x, str) for x in all_names) \
+            and len(set(all_names)) == len(all_names):
+        # move the names around through live column views (the table is not told): sort keys given by name must
+        # denote the column that carries the name now
+        perm = list(range(1, len(cols))) + [0]
+        old_names = [c[0] for c in cols]
+        views = list(t.cols())
+        for j, vw in enumerate(views):
+            vw.name = f"tmp{j}"
+        for j, vw in enumerate(views):
+            vw.name = old_names[perm[j]]
+        cols = [(old_names[perm[j]], cols[j][1]) for j in range(len(cols))]
+        # the key columns keep their positions; their names changed
+        case = dict(case, keys=[dict(k) for k in case["keys"]])
     snap = R.snapshot_table(t)
     by, rev = _by(case, t, cols, kpos)
     revs = [k["rev"] for k in case["keys"]]
